@@ -260,8 +260,27 @@ def layout_cases():
     return out
 
 
+SECTION_OF = {'FooObj': 'fooobj', 'FooSub': 'foosub', 'FooHidden': 'foohidden', 'FooIface': 'fooiface',
+              'FooObjClass': 'fooobjclass', 'FooIfaceInterface': 'fooifaceinterface', 'FooRec': 'foorec',
+              'FooPlain': 'fooplain', 'FooUni': 'foouni', 'FooEnum': 'fooenum', 'FooFlags': 'fooflags',
+              'FooCallback': 'foocallback', 'FooAlias': 'fooalias'}
+
+
+def section_cases():
+    """a type's own annotated block next to a SECTION:<lowercase type name> block that carries a description"""
+    out = []
+    for t in sorted(SECTION_OF):
+        sec = {'name': 'SECTION:' + SECTION_OF[t], 'items': [['desc', 'Section text.']]}
+        out.append({'blocks': [sec]})
+        for it in (['skip', None], ['foreign', None], ['attributes', 'my.key=val'], ['Since', '1.2'],
+                   ['Deprecated', '1.4: Use other'], ['copy-func', 'foo_rec_dup'], ['ref-func', 'foo_obj_dup']):
+            out.append({'blocks': [{'name': t, 'items': [list(it)]}, sec]})
+            out.append({'blocks': [sec, {'name': t, 'items': [list(it)]}]})
+    return out
+
+
 def quick_cases():
-    out = layout_cases()
+    out = layout_cases() + section_cases()
     for name in sorted(ELEMENTS):
         for it in model.FULL_MENU:
             out.append(single(name, it))
